@@ -64,6 +64,8 @@ def firstBroken (g : Ghost) (api : Api) : Option (Str × Nat) :=
     | some n => some (n, 2)
     | none => none
 
+def holdFlushed (l : Loc) (g : Ghost) : Ghost := l.foldl (fun g e => g.hold e.2.name e.2.data .flushed) g
+
 section
 variable (sh : Str → Nat)
 
@@ -84,10 +86,90 @@ def ghostPost (st : Store) (op : Op) (res : Res) (g : Ghost) : Ghost :=
   | .save _ c, .ok => if st.cfg.writeThrough then g.hold c.name c.data .ack else g
   | .delete _ n, .ok => g.absent n
   | .deleteUpstream k _, .ok => (llistUp k st.loc).foldl (fun g e => g.absent e.2.name) g
-  | .flush _, .ok => (ownEntries sh st).foldl (fun g e => g.hold e.2.name e.2.data .flushed) g
-  | .stop _, .ok =>
-    if st.stopped then g else (ownEntries sh st).foldl (fun g e => g.hold e.2.name e.2.data .flushed) g
+  | .flush _, .ok => holdFlushed (ownEntries sh st) g
+  | .stop _, .ok => if st.stopped then g else holdFlushed (ownEntries sh st) g
   | _, _ => g
+
+/-! ## Observations and the judge over a whole history -/
+
+/-- What an observer sees of one operation: the store when it starts, the crash points (the API after every
+    call, oldest first) before / inside / after the window in which another goroutine's call ran (`seg1` is all
+    of them for a plain operation), the answers, and the API when it returned. -/
+structure Obs where
+  st : Store
+  op : OpI
+  seg1 : List Pt
+  ran : Bool
+  seg2 : List Pt
+  ires : Res
+  seg3 : List Pt
+  res : Res
+  fin : Api
+
+/-- the claims in force at each crash point (an object somebody else removed is no longer claimed persisted),
+    and the claims after the last one -/
+def annotate (g : Ghost) : List Pt → List (Ghost × Api) × Ghost
+  | [] => ([], g)
+  | p :: ps =>
+    let g' := match p.voided with
+      | some n => g.unhold n
+      | none => g
+    let r := annotate g' ps
+    ((g', p.api) :: r.1, r.2)
+
+/-- names another goroutine wrote while a flush was running -/
+def raced : Op → List Str
+  | .save _ c => [c.name]
+  | _ => []
+
+/-- Every (claims, API) pair the history must honour during and after one observed operation, and the claims in
+    force afterwards. `full = true` is the property at full strength under concurrency: a write-through `Save`
+    acknowledged while a flush is running is claimed persisted from then on. `full = false` claims nothing about
+    a condition saved inside the window of a running flush (until it is saved again). -/
+def checkObs (full : Bool) (g : Ghost) (o : Obs) : List (Ghost × Api) × Ghost :=
+  match o.op with
+  | .plain op =>
+    let a1 := annotate (ghostPre sh o.st op g) o.seg1
+    let g2 := ghostPost sh o.st op o.res a1.2
+    (a1.1 ++ [(g2, o.fin)], g2)
+  | .flushI _ _ intr | .stopI _ _ intr =>
+    let skip := match o.op with
+      | .stopI _ _ _ => o.st.stopped
+      | _ => false
+    if skip then ([(g, o.fin)], g)
+    else
+      let a1 := annotate g o.seg1
+      if o.ran then
+        let a2 := annotate (ghostPre sh o.st intr a1.2) o.seg2
+        let gc := if full then ghostPost sh o.st intr o.ires a2.2 else a2.2
+        let a3 := annotate gc o.seg3
+        let own := (ownEntries sh o.st).filter (fun e => ! (raced intr).contains e.2.name)
+        let ge := if o.res = .ok then holdFlushed own a3.2 else a3.2
+        (a1.1 ++ a2.1 ++ a3.1 ++ [(ge, o.fin)], ge)
+      else
+        let ge := if o.res = .ok then holdFlushed (ownEntries sh o.st) a1.2 else a1.2
+        (a1.1 ++ [(ge, o.fin)], ge)
+
+/-- the crash points added between two worlds, oldest first -/
+def newPts (w w' : World) : List Pt := (w'.trace.take (w'.trace.length - w.trace.length)).reverse
+
+/-- what an observer sees of the model running `op` -/
+def observe (st : Store) (op : OpI) (w : World) : Obs × Store × World :=
+  match stepI sh st op w with
+  | (st', w', res, none) =>
+    ({ st := st, op := op, seg1 := newPts w w', ran := false, seg2 := [], ires := .ok, seg3 := [], res := res, fin := w'.api }, st', w')
+  | (st', w', res, some (ires, w1, w2)) =>
+    ({ st := st, op := op, seg1 := newPts w w1, ran := true, seg2 := newPts w1 w2, ires := ires, seg3 := newPts w2 w',
+       res := res, fin := w'.api }, st', w')
+
+/-- every (claims, API) pair of a whole history of the model -/
+def checkAll (full : Bool) : Store → Ghost → World → List OpI → List (Ghost × Api)
+  | _, _, _, [] => []
+  | st, g, w, op :: ops =>
+    match observe sh st op w with
+    | (o, st', w') =>
+      let r := checkObs sh full g o
+      r.1 ++ checkAll full st' r.2 w' ops
 
 /-- "A server that gains a shard loads exactly the persisted conditions of that shard": what a fresh store for
     `shard` must hold after `Load()` answered nil on `api`. -/
